@@ -12,19 +12,19 @@ fn logic_u(r: &mut Rec, k: u64) {
             r.uu("bitxor", "ref_ref", 0, 1, 2, |a, b| a ^ b);
         }
         1 => {
-            r.uu("bitand", "val_ref", 0, 1, 2, |a, b| a.clone() & b);
-            r.uu("bitor", "val_ref", 0, 1, 2, |a, b| a.clone() | b);
-            r.uu("bitxor", "val_ref", 0, 1, 2, |a, b| a.clone() ^ b);
+            r.uu("bitand", "val_ref", 0, 1, 2, |a, b| a.roomy() & b);
+            r.uu("bitor", "val_ref", 0, 1, 2, |a, b| a.roomy() | b);
+            r.uu("bitxor", "val_ref", 0, 1, 2, |a, b| a.roomy() ^ b);
         }
         2 => {
-            r.uu("bitand", "ref_val", 0, 1, 2, |a, b| a & b.clone());
-            r.uu("bitor", "ref_val", 0, 1, 2, |a, b| a | b.clone());
-            r.uu("bitxor", "ref_val", 0, 1, 2, |a, b| a ^ b.clone());
+            r.uu("bitand", "ref_val", 0, 1, 2, |a, b| a & b.roomy());
+            r.uu("bitor", "ref_val", 0, 1, 2, |a, b| a | b.roomy());
+            r.uu("bitxor", "ref_val", 0, 1, 2, |a, b| a ^ b.roomy());
         }
         3 => {
-            r.uu("bitand", "val_val", 0, 1, 2, |a, b| a.clone() & b.clone());
-            r.uu("bitor", "val_val", 0, 1, 2, |a, b| a.clone() | b.clone());
-            r.uu("bitxor", "val_val", 0, 1, 2, |a, b| a.clone() ^ b.clone());
+            r.uu("bitand", "val_val", 0, 1, 2, |a, b| a.roomy() & b.roomy());
+            r.uu("bitor", "val_val", 0, 1, 2, |a, b| a.roomy() | b.roomy());
+            r.uu("bitxor", "val_val", 0, 1, 2, |a, b| a.roomy() ^ b.roomy());
         }
         4 => {
             r.clone_u(0, 2);
@@ -36,11 +36,11 @@ fn logic_u(r: &mut Rec, k: u64) {
         }
         _ => {
             r.clone_u(0, 2);
-            r.u_assign("bitand", "assign_val", 2, 1, |d, s| *d &= s.clone());
+            r.u_assign("bitand", "assign_val", 2, 1, |d, s| *d &= s.roomy());
             r.clone_u(0, 2);
-            r.u_assign("bitor", "assign_val", 2, 1, |d, s| *d |= s.clone());
+            r.u_assign("bitor", "assign_val", 2, 1, |d, s| *d |= s.roomy());
             r.clone_u(0, 2);
-            r.u_assign("bitxor", "assign_val", 2, 1, |d, s| *d ^= s.clone());
+            r.u_assign("bitxor", "assign_val", 2, 1, |d, s| *d ^= s.roomy());
         }
     }
 }
@@ -53,19 +53,19 @@ pub fn logic_i(r: &mut Rec, k: u64) {
             r.ii("bitxor", "ref_ref", 0, 1, 2, |a, b| a ^ b);
         }
         1 => {
-            r.ii("bitand", "val_ref", 0, 1, 2, |a, b| a.clone() & b);
-            r.ii("bitor", "val_ref", 0, 1, 2, |a, b| a.clone() | b);
-            r.ii("bitxor", "val_ref", 0, 1, 2, |a, b| a.clone() ^ b);
+            r.ii("bitand", "val_ref", 0, 1, 2, |a, b| a.roomy() & b);
+            r.ii("bitor", "val_ref", 0, 1, 2, |a, b| a.roomy() | b);
+            r.ii("bitxor", "val_ref", 0, 1, 2, |a, b| a.roomy() ^ b);
         }
         2 => {
-            r.ii("bitand", "ref_val", 0, 1, 2, |a, b| a & b.clone());
-            r.ii("bitor", "ref_val", 0, 1, 2, |a, b| a | b.clone());
-            r.ii("bitxor", "ref_val", 0, 1, 2, |a, b| a ^ b.clone());
+            r.ii("bitand", "ref_val", 0, 1, 2, |a, b| a & b.roomy());
+            r.ii("bitor", "ref_val", 0, 1, 2, |a, b| a | b.roomy());
+            r.ii("bitxor", "ref_val", 0, 1, 2, |a, b| a ^ b.roomy());
         }
         3 => {
-            r.ii("bitand", "val_val", 0, 1, 2, |a, b| a.clone() & b.clone());
-            r.ii("bitor", "val_val", 0, 1, 2, |a, b| a.clone() | b.clone());
-            r.ii("bitxor", "val_val", 0, 1, 2, |a, b| a.clone() ^ b.clone());
+            r.ii("bitand", "val_val", 0, 1, 2, |a, b| a.roomy() & b.roomy());
+            r.ii("bitor", "val_val", 0, 1, 2, |a, b| a.roomy() | b.roomy());
+            r.ii("bitxor", "val_val", 0, 1, 2, |a, b| a.roomy() ^ b.roomy());
         }
         4 => {
             r.clone_i(0, 2);
@@ -77,11 +77,11 @@ pub fn logic_i(r: &mut Rec, k: u64) {
         }
         _ => {
             r.clone_i(0, 2);
-            r.i_assign("bitand", "assign_val", 2, 1, |d, s| *d &= s.clone());
+            r.i_assign("bitand", "assign_val", 2, 1, |d, s| *d &= s.roomy());
             r.clone_i(0, 2);
-            r.i_assign("bitor", "assign_val", 2, 1, |d, s| *d |= s.clone());
+            r.i_assign("bitor", "assign_val", 2, 1, |d, s| *d |= s.roomy());
             r.clone_i(0, 2);
-            r.i_assign("bitxor", "assign_val", 2, 1, |d, s| *d ^= s.clone());
+            r.i_assign("bitxor", "assign_val", 2, 1, |d, s| *d ^= s.roomy());
         }
     }
 }
@@ -95,16 +95,16 @@ macro_rules! shift_types {
             if let Ok(a) = <$t>::try_from(amt) {
                 let ex = ex_sc($ty, &[a.sc()], "rc");
                 match ($k + n) % 6 {
-                    4 => { $r.op($op, concat!("val_ref", stringify!($t)), &[$idx(0)], &[$idx(2)], &ex, |g| { g.$bank[2] = g.$bank[0].clone() $sh &a; Ret::none() }); }
+                    4 => { $r.op($op, concat!("val_ref", stringify!($t)), &[$idx(0)], &[$idx(2)], &ex, |g| { g.$bank[2] = g.$bank[0].roomy() $sh &a; Ret::none() }); }
                     5 => {
-                        $r.op("clone", "clone", &[$idx(0)], &[$idx(2)], &format!("\"ty\":\"{}\"", $ty), |g| { g.$bank[2] = g.$bank[0].clone(); Ret::none() });
+                        $r.op("clone", "clone", &[$idx(0)], &[$idx(2)], &format!("\"ty\":\"{}\"", $ty), |g| { g.$bank[2] = g.$bank[0].roomy(); Ret::none() });
                         $r.op($op, concat!("assign_ref", stringify!($t)), &[$idx(2)], &[$idx(2)], &ex, |g| { g.$bank[2] $sha &a; Ret::none() });
                     }
-                    0 => { $r.op($op, concat!("val_", stringify!($t)), &[$idx(0)], &[$idx(2)], &ex, |g| { g.$bank[2] = g.$bank[0].clone() $sh a; Ret::none() }); }
+                    0 => { $r.op($op, concat!("val_", stringify!($t)), &[$idx(0)], &[$idx(2)], &ex, |g| { g.$bank[2] = g.$bank[0].roomy() $sh a; Ret::none() }); }
                     1 => { $r.op($op, concat!("ref_", stringify!($t)), &[$idx(0)], &[$idx(2)], &ex, |g| { g.$bank[2] = &g.$bank[0] $sh a; Ret::none() }); }
                     2 => { $r.op($op, concat!("ref_ref", stringify!($t)), &[$idx(0)], &[$idx(2)], &ex, |g| { g.$bank[2] = &g.$bank[0] $sh &a; Ret::none() }); }
                     _ => {
-                        $r.op("clone", "clone", &[$idx(0)], &[$idx(2)], &format!("\"ty\":\"{}\"", $ty), |g| { g.$bank[2] = g.$bank[0].clone(); Ret::none() });
+                        $r.op("clone", "clone", &[$idx(0)], &[$idx(2)], &format!("\"ty\":\"{}\"", $ty), |g| { g.$bank[2] = g.$bank[0].roomy(); Ret::none() });
                         $r.op($op, concat!("assign_", stringify!($t)), &[$idx(2)], &[$idx(2)], &ex, |g| { g.$bank[2] $sha a; Ret::none() });
                     }
                 }
@@ -228,7 +228,7 @@ fn one_case(r: &mut Rec, label: &str, a: &[u64], b: &[u64], sa: Sign, sb: Sign, 
             logic_u(r, j);
         }
     }
-    r.i1("not", "val", "", 0, 2, |a| !a.clone());
+    r.i1("not", "val", "", 0, 2, |a| !a.roomy());
     r.i1("not", "ref", "", 0, 2, |a| !a);
     if heavy || rng.chance(1, 3) {
         let bu = r.g.u[0].bits();
